@@ -6,7 +6,7 @@ import ast
 from typing import Dict, List, Optional, Sequence, Tuple
 
 from ..model import AnchorError, Program, dotted, kw, last_attr, norm, parent, walk_no_nested
-from ..report import Check
+from ..report import Check, guard
 from .binder import Binder, core
 from .common import calls_in, guards_of, local_assignments, need_locals, returns_of
 
@@ -347,9 +347,9 @@ def r20_6(prog: Program, chk: Check) -> None:
 
 
 def run(prog: Program, chk: Check) -> None:
-    r20_1(prog, chk)
-    r20_2(prog, chk)
-    r20_3(prog, chk)
-    r20_4(prog, chk)
-    r20_5(prog, chk)
-    r20_6(prog, chk)
+    guard(chk, r20_1, prog, chk)
+    guard(chk, r20_2, prog, chk)
+    guard(chk, r20_3, prog, chk)
+    guard(chk, r20_4, prog, chk)
+    guard(chk, r20_5, prog, chk)
+    guard(chk, r20_6, prog, chk)
